@@ -8,7 +8,7 @@
     payload bytes and (a superset of) all valid-UTF-8 strings.  Library behaviour enters only as
     an explicit, pointwise hypothesis of the round-trip theorems. *)
 From WM Require Import Base.Prelude Message.Model Value.Model Value.Codec Value.Json Value.ToyCodec
-  Value.EqualsProofs Value.CodecProofs Value.StoreProofs Value.JsonProofs Value.ToyProofs Value.CrossProofs Value.Reuse Value.ReuseProofs Value.Scan Value.ScanProofs Value.Sorted Value.SortedProofs.
+  Value.EqualsProofs Value.CodecProofs Value.StoreProofs Value.JsonProofs Value.ToyProofs Value.CrossProofs Value.Reuse Value.ReuseProofs Value.Scan Value.ScanProofs Value.Sorted Value.SortedProofs Value.JsonInt Value.JsonIntProofs.
 
 (** * Equals *)
 
@@ -410,6 +410,15 @@ Theorem C16_envelope_roundtrip_sorted_same_value : forall nu dest m w, envelope_
     /\ payload m' = payload m /\ (meta m = None <-> meta m' = None).
 Proof. exact envelope_roundtrip_sorted_same_value. Qed.
 
+(** integers are read back from their JSON text (decimal, as strconv writes it), so the reply
+    marshaler's round trip is closed for integer results as well *)
+Theorem C16_json_int_roundtrip : forall z, dec_int (enc_int z) = Some z.
+Proof. exact dec_int_enc_int. Qed.
+Theorem C16_reply_roundtrip_int : forall nu (p : rparams Z) m,
+  marshal_reply Z (fun r => Some (Some (enc_int r))) nu p = Ok m ->
+  unmarshal_reply Z dec_int m = Ok (Rep Z (p_result Z p) (p_err Z p)).
+Proof. exact reply_roundtrip_int. Qed.
+
 Print Assumptions C16_equals_iff.
 Print Assumptions C16_equals_iff_refuted.
 Print Assumptions C16_equals_symmetric_refuted.
@@ -469,6 +478,9 @@ Print Assumptions C16_publisher_roundtrip_closed.
 
 Print Assumptions C16_envelope_roundtrip_sorted.
 Print Assumptions C16_envelope_roundtrip_sorted_same_value.
+
+Print Assumptions C16_json_int_roundtrip.
+Print Assumptions C16_reply_roundtrip_int.
 
 (** * Non-vacuity *)
 
